@@ -1,10 +1,13 @@
 """C14 — evaluating a rule never crashes; what cannot be evaluated denies."""
+import ast
+
 from .. import gen, scenario
+from . import c05
 
 META = {'assumptions': ["the exception surface of ast.literal_eval is CPython's: the harness classifies each left side "
                         "(literal value / not a literal) and the model is proved for every such classification"]}
 
-LHS = ['class', 'def', 'lambda', 'import', 'None', 'True', 'not_', 'is', 'in', 'if', 'else', 'yield', 'await',
+LHS = ['', "'", '"', "''", '""', "' '", 'x', '0', '-0', '-1', '00', '1 ', ' 1', ' a', 'a ', 'class', 'def', 'lambda', 'import', 'None', 'True', 'not_', 'is', 'in', 'if', 'else', 'yield', 'await',
        '1+', '+1', '1+1', '-', '--1', '*', '**', '~1', 'a.0', '0.a', '0.0.0', '..', 'a..b', '.a', 'a.', '.', 'a.b.', '1.', '.5',
        '[', ']', '[]', '[1', '{', '}', '{}', '{1', '[[', 'a[0]', 'a(b)', 'f()', '()', '(,)', '1,', ',',
        "'a", 'a"', "'''", '"""', "'\\'", 'b"x"', "r'x'", 'f"x"', "u'x'", '0x', '0o8', '1e', '1_0', '1__0', '0b2', '1j',
@@ -39,6 +42,29 @@ def run(ctx, rep):
         qs = [{'rule': n, 'target': target, 'creds': creds, 'do_raise': dr} for n in ('p', 'q') for dr in (False, True)]
         qs.append({'rule': {'check': rules['p']}, 'target': target, 'creds': creds})
         scs.append({'rules': rules, 'queries': qs, '_leaves': leaves})
+    # single leaves whose left side resolves to nothing (not a literal, no such credential path): they must deny,
+    # whatever the right side renders as
+    n_single = 0
+    for lhs in LHS:
+        try:
+            ast.literal_eval(lhs)
+            continue
+        except Exception:
+            pass
+        for _ in range(ctx.bound(3, 12)):
+            creds = {k: ctx.rng.choice(JSONV) for k in ctx.rng.sample(['a', 'b', 'c', 'nested', 'user_id', '0', 'é'], 3)}
+            reach = []
+            c05.reachable_strings(creds, lhs.split('.'), reach)
+            if reach:
+                continue
+            rhs = ctx.rng.choice(RHS + ['None', '%(nul)s', '', '%(emp)s', '[]', '{}', 'False'])
+            target = {'k': ctx.rng.choice(JSONV), 'n': ctx.rng.choice(JSONV), 'nul': None, 'emp': ''}
+            leaf = '%s:%s' % (lhs, rhs)
+            scs.append({'rules': {'p': [[leaf]], 'q': 'rule:p'}, '_leaves': [leaf], '_unresolvable': True,
+                        'queries': [{'rule': 'p', 'target': target, 'creds': creds, 'do_raise': False}]})
+            n_single += 1
+    rep.rules.append('%d single leaves whose left side is neither a literal nor a path present in the credentials, against right '
+                     'sides incl. None / empty renderings: each must deny' % n_single)
     rep.rules.append('%d rule sets whose leaves pair %d hostile left sides (Python keywords, operators, brackets, digits, dots, '
                      'quotes, prefixes, non-ASCII) with %d right sides (literals and well-formed %%(key)s placeholders, present or '
                      'missing), as list-of-lists and (when lexically clean) as text expressions with references; credentials '
@@ -46,6 +72,11 @@ def run(ctx, rep):
                      'by name and as check object, do_raise off/on' % (N, len(LHS), len(RHS)))
 
     def check(sc, outs):
+        if sc.get('_unresolvable') and outs[0] != 'deny':
+            rep.fail('c14deny:%r' % (sc['_leaves'],), 'leaf %r, whose left side is neither a literal nor a credential path present '
+                     'in %r, gives %s against target %r; what cannot be evaluated must deny'
+                     % (sc['_leaves'][0], sc['queries'][0]['creds'], outs[0], sc['queries'][0]['target']),
+                     {'rules': sc['rules'], 'query': sc['queries'][0]})
         for q, got in zip(sc['queries'], outs):
             ok = got in ('allow', 'deny') if not q.get('do_raise') else \
                 (got == 'allow' or got.startswith('raise:PolicyNotAuthorized'))
